@@ -261,6 +261,12 @@ func (n *npCtx) provesLe(a, b lin) bool {
 			m.depth = n.depth + 1
 			m.fx = n.fx
 			le := m.linOf(e)
+			// the atoms of the goal keep their axioms (len ≥ 0, …) in the edge context
+			for _, s := range []string{a.sym, b.sym} {
+				if v, ok := n.atoms[s]; ok && s != "" {
+					m.noteAtom(s, v)
+				}
+			}
 			// inductive hypothesis: the bound holds for the phi's current value
 			if upper {
 				m.addLe(a, b)
